@@ -321,6 +321,13 @@ func (d *Def) getMethodNameAndSetIsStatic(
 		return "", err
 	}
 
+	// `def` at the end of a line: the newline is not a method name
+	if t == nil || t.IsNewLineIdentifier() {
+		p.Unget()
+
+		return "", fmt.Errorf("syntax error, method name expected")
+	}
+
 	if t.IsTargetIdentifier("self") {
 		ctx.IsDefineStatic = true
 
